@@ -66,6 +66,128 @@ MUTANTS = [
     ('c08-merge-from-forgets-bound', 'malt/pyct/static_analysis/activity.py',
      '    self.bound.update(other.bound)\n', '',
      ['malt.pyct.static_analysis.activity.Scope.merge_from']),
+    ('c04-ifexp-branches-swapped', 'malt/converters/conditional_expressions.py',
+     '        true_expr=node.body,\n        false_expr=node.orelse,', '        true_expr=node.orelse,\n        false_expr=node.body,',
+     ['malt.converters.conditional_expressions.ConditionalExpressionTransformer.visit_IfExp']),
+    ('c04-ifexp-template-eager-branch', 'malt/converters/conditional_expressions.py',
+     '            lambda: true_expr,', '            true_expr,',
+     ['malt.converters.conditional_expressions.ConditionalExpressionTransformer.visit_IfExp']),
+    ('c04-assert-message-dropped', 'malt/converters/asserts.py',
+     'return templates.replace(template, test=node.test, msg=node.msg)',
+     "return templates.replace(template, test=node.test, msg=ast.Constant('Assertion error'))",
+     ['malt.converters.asserts.AssertTransformer.visit_Assert']),
+    ('c04-unary-overload-ignored', 'malt/converters/logical_expressions.py',
+     '    return self._as_unary_function(overload, node.operand)', '    return node',
+     ['malt.converters.logical_expressions.LogicalExpressionTransformer.visit_UnaryOp']),
+    ('c04-binop-operands-swapped', 'malt/converters/logical_expressions.py',
+     '    return self._as_binary_function(overload, left, right)', '    return self._as_binary_function(overload, right, left)',
+     ['malt.converters.logical_expressions.LogicalExpressionTransformer._process_binop']),
+    ('c04-call-print-always-native', 'malt/converters/call_trees.py',
+     "    if (full_name == 'print' and\n        not self.ctx.user.options.uses(converter.Feature.BUILTIN_FUNCTIONS)):", "    if full_name == 'print':",
+     ['malt.converters.call_trees.CallTreeTransformer.visit_Call']),
+    ('c04-call-kwargs-dropped', 'malt/converters/call_trees.py',
+     '        kwargs=self._kwargs_to_dict(node),', "        kwargs=parser.parse_expression('None'),",
+     ['malt.converters.call_trees.CallTreeTransformer.visit_Call']),
+    ('c04-call-harmless-local-renamed', 'malt/converters/call_trees.py',
+     '''    new_call = templates.replace_as_expression(
+        template,
+        func=node.func,
+        args=self._args_to_tuple(node),
+        kwargs=self._kwargs_to_dict(node),
+        function_ctx=function_context_name)
+
+    return new_call''', '''    converted = templates.replace_as_expression(
+        template,
+        func=node.func,
+        args=self._args_to_tuple(node),
+        kwargs=self._kwargs_to_dict(node),
+        function_ctx=function_context_name)
+
+    return converted''',
+     ['ok:malt.converters.call_trees.CallTreeTransformer.visit_Call']),
+    ('c04-lists-pop-arity', 'malt/converters/lists.py',
+     "      elif func_name == 'pop' and (len(node.args) <= 1):", "      elif func_name == 'pop' and (len(node.args) < 1):",
+     ['malt.converters.lists.ListTransformer.visit_Call']),
+    ('c04-lists-append-not-rebound', 'malt/converters/lists.py',
+     '      target = ag__.list_append(target, element)', '      ag__.list_append(target, element)',
+     ['malt.converters.lists.ListTransformer.visit_Call']),
+    ('c04-lists-extend-treated-as-append', 'malt/converters/lists.py',
+     "      if func_name == 'append' and (len(node.args) == 1):", "      if func_name in ('append', 'extend') and (len(node.args) == 1):",
+     ['malt.converters.lists.ListTransformer.visit_Call']),
+    ('c04-ld-on-stores-too', 'malt/converters/variables.py',
+     '    if isinstance(node.ctx, ast.Load):\n', '    if True:\n',
+     ['malt.converters.variables.VariableAccessTransformer.visit_Name']),
+    ('c04-if-block-vars-from-body-only', 'malt/converters/control_flow.py',
+     '        node, body_scope.bound | orelse_scope.bound)', '        node, body_scope.bound)',
+     ['malt.converters.control_flow.ControlFlowTransformer.visit_If']),
+    ('c04-if-reserved-from-body-only', 'malt/converters/control_flow.py',
+     '    reserved = body_scope.referenced | orelse_scope.referenced\n    state_getter_name = self.ctx.namer.new_symbol(\'get_state\', reserved)\n    state_setter_name = self.ctx.namer.new_symbol(\'set_state\', reserved)\n    state_functions = self._create_state_functions(\n        cond_vars,',
+     '    reserved = body_scope.referenced\n    state_getter_name = self.ctx.namer.new_symbol(\'get_state\', reserved)\n    state_setter_name = self.ctx.namer.new_symbol(\'set_state\', reserved)\n    state_functions = self._create_state_functions(\n        cond_vars,',
+     ['malt.converters.control_flow.ControlFlowTransformer.visit_If']),
+    ('c04-if-branches-swapped', 'malt/converters/control_flow.py',
+     '        body=node.body,\n        body_name=self.ctx.namer.new_symbol(\'if_body\', reserved),\n        orelse=orelse_body,',
+     '        body=orelse_body,\n        body_name=self.ctx.namer.new_symbol(\'if_body\', reserved),\n        orelse=node.body,',
+     ['malt.converters.control_flow.ControlFlowTransformer.visit_If']),
+    ('c04-if-empty-else-not-padded', 'malt/converters/control_flow.py',
+     '    if not orelse_body:\n      orelse_body = [ast.Pass()]\n\n    template = """\n      state_functions\n      def body_name():\n        nonlocal_declarations\n        body\n      def orelse_name():',
+     '    template = """\n      state_functions\n      def body_name():\n        nonlocal_declarations\n        body\n      def orelse_name():',
+     ['malt.converters.control_flow.ControlFlowTransformer.visit_If']),
+    ('c04-for-target-names-not-loop-vars', 'malt/converters/control_flow.py',
+     '        node, body_scope.bound | iter_scope.bound)', '        node, body_scope.bound)',
+     ['malt.converters.control_flow.ControlFlowTransformer.visit_For']),
+    ('c04-for-extra-test-ignored', 'malt/converters/control_flow.py',
+     '    if anno.hasanno(node, anno.Basic.EXTRA_LOOP_TEST):', '    if False:',
+     ['malt.converters.control_flow.ControlFlowTransformer.visit_For']),
+    ('c04-while-test-evaluated-once', 'malt/converters/control_flow.py',
+     '      def test_name():\n        return test\n', '      test_value = test\n      def test_name():\n        return test_value\n',
+     ['malt.converters.control_flow.ControlFlowTransformer.visit_While']),
+    ('c04-while-reserved-empty', 'malt/converters/control_flow.py',
+     "        test_name=self.ctx.namer.new_symbol('loop_test', reserved),", "        test_name=self.ctx.namer.new_symbol('loop_test', set()),",
+     ['malt.converters.control_flow.ControlFlowTransformer.visit_While']),
+    ('c03-break-else-not-guarded', 'malt/converters/break_statements.py',
+     '    guarded_orelse = self._guard_if_present(node.orelse, break_var)\n\n    template = """\n      var_name = False\n      while not var_name and test:',
+     '    guarded_orelse = node.orelse\n\n    template = """\n      var_name = False\n      while not var_name and test:',
+     ['malt.converters.break_statements.BreakTransformer.visit_While']),
+    ('c03-break-while-test-not-guarded', 'malt/converters/break_statements.py',
+     '      while not var_name and test:', '      while test:',
+     ['malt.converters.break_statements.BreakTransformer.visit_While']),
+    ('c03-break-guard-inverted', 'malt/converters/break_statements.py',
+     '        if not var_name:\n          block', '        if var_name:\n          block',
+     ['malt.converters.break_statements.BreakTransformer._guard_if_present']),
+    ('c03-break-for-no-extra-test', 'malt/converters/break_statements.py',
+     '    anno.setanno(new_for_node, anno.Basic.EXTRA_LOOP_TEST, extra_test)\n', '',
+     ['malt.converters.break_statements.BreakTransformer.visit_For']),
+    ('c03-break-else-visited-inside-break-scope', 'malt/converters/break_statements.py',
+     '    nodes = self.visit_block(nodes)\n    break_used = self.state[_Break].used\n    self.state[_Break].exit()',
+     '    nodes = self.visit_block(nodes)\n    self.state[_Break].exit()\n    break_used = self.state[_Break].used',
+     ['malt.converters.break_statements.BreakTransformer._process_body']),
+    ('c03-continue-else-in-loop-scope', 'malt/converters/continue_statements.py',
+     '''    node.test = self.visit(node.test)
+    node.body = self._visit_loop_body(node, node.body)
+    # A continue in the else clause applies to the containing scope.
+    node.orelse = self._visit_non_loop_body(node.orelse)''', '''    node.test = self.visit(node.test)
+    node.body = self._visit_loop_body(node, node.body)
+    # A continue in the else clause applies to the containing scope.
+    node.orelse = self._visit_loop_body(node, node.orelse)''',
+     ['malt.converters.continue_statements.ContinueCanonicalizationTransformer.visit_While']),
+    ('c03-continue-guard-flags-not-advanced', 'malt/converters/continue_statements.py',
+     '      block.create_guard_current = block.create_guard_next\n', '',
+     ['malt.converters.continue_statements.ContinueCanonicalizationTransformer._postprocess_statement']),
+    ('c03-continue-var-initialised-always', 'malt/converters/continue_statements.py',
+     '    if self.state[_Continue].used:\n      template = """\n        var_name = False', '    if True:\n      template = """\n        var_name = False',
+     ['malt.converters.continue_statements.ContinueCanonicalizationTransformer._visit_loop_body']),
+    ('c03-continue-finally-not-visited', 'malt/converters/continue_statements.py',
+     '    node.finalbody = self._visit_non_loop_body(node.finalbody)\n', '',
+     ['malt.converters.continue_statements.ContinueCanonicalizationTransformer.visit_Try']),
+    ('c10-transformed-node-not-renamed', 'malt/pyct/transpiler.py',
+     '          nodes.name = ctx.info.name\n', '          pass\n',
+     ['malt.pyct.transpiler.PyToPy.transform_function']),
+    ('c20-function-context-name-not-recorded', 'malt/converters/functions.py',
+     '''      function_context_name = self.ctx.namer.new_symbol('fscope',
+                                                        scope.referenced)
+      fn_scope.context_name = function_context_name''', '''      function_context_name = self.ctx.namer.new_symbol('fscope',
+                                                        scope.referenced)''',
+     ['malt.converters.functions.FunctionTransformer.visit_FunctionDef']),
     ('c16-exit-guard-swapped', 'malt/operators/function_wrappers.py',
      '''  def __exit__(self, exc_type, exc_val, exc_tb):
     if self.options.user_requested:''', '''  def __exit__(self, exc_type, exc_val, exc_tb):
